@@ -236,6 +236,10 @@ def selftest_for(ck: Checker, seed: int = 0):
                                       for d in fails[:5]))
 
 
+import sys as _sys
+_sys.setrecursionlimit(20000)
+
+
 def main(argv=None) -> int:
     ap = argparse.ArgumentParser()
     ap.add_argument("--prop", default=None)
